@@ -197,6 +197,23 @@ theorem evalStep_store {m : Nat} {W : World} {S : PStore} {rq : Request} {fn : F
 def ExternalLoads (m : Nat) (W : World) (S : PStore) (rq : Request) : Prop :=
   ∀ fn env fis paths, analysisPhase m W S rq = .ok (fn, env, fis, paths) → ∀ p ∈ fis.allLoads, External paths p
 
+/-- a computable check of `ExternalLoads` on the result of the analysis -/
+def extLoadsB (r : Except DdsErr (Fn × Env × FIS × List (String × Sg))) : Bool :=
+  match r with
+  | .ok (_, _, fis, paths) => fis.allLoads.all (fun p => (aget paths p).isNone)
+  | .error _ => true
+
+theorem externalLoads_of_check {m : Nat} {W : World} {S : PStore} {rq : Request}
+    (h : extLoadsB (analysisPhase m W S rq) = true) : ExternalLoads m W S rq := by
+  intro fn env fis paths ha p hp
+  rw [ha] at h
+  simp only [extLoadsB, all_eq_true] at h
+  have := h p hp
+  unfold External
+  cases hg : aget paths p with
+  | none => rfl
+  | some k => simp [hg] at this
+
 structure HInv (U : Universe) (m x : Nat) (h : HState) : Prop where
   sound : Sound U m x h.store
   kept : PathsKept h.store h.kept
